@@ -841,14 +841,13 @@ func (k *Kernel) addFuturePrevote(
 ) AddVoteResult {
 	// NOTE: keep changes to this method synchronized with addFuturePrecommit.
 
-	// TODO: the mirror thought this was a future view,
-	// but it is possible that it changed from future to current
+	// The mirror thought this was a future view,
+	// but it is possible that it changed from future to current (or even to a past view)
 	// before the kernel processed the request.
+	// In that case the request was built against the wrong storage,
+	// so report a conflict and let the mirror look up the view again.
 	if _, _, vStatus := s.FindView(req.H, req.R, "(*Kernel).addFuturePrevote"); vStatus != ViewFuture {
-		panic(fmt.Errorf(
-			"TODO: handle addFuturePrevote when the view has changed from future to %s",
-			vStatus,
-		))
+		return AddVoteConflict
 	}
 
 	// It's still a future view.
@@ -949,14 +948,13 @@ func (k *Kernel) addFuturePrecommit(
 ) AddVoteResult {
 	// NOTE: keep changes to this method synchronized with addFuturePrevote.
 
-	// TODO: the mirror thought this was a future view,
-	// but it is possible that it changed from future to current
+	// The mirror thought this was a future view,
+	// but it is possible that it changed from future to current (or even to a past view)
 	// before the kernel processed the request.
+	// In that case the request was built against the wrong storage,
+	// so report a conflict and let the mirror look up the view again.
 	if _, _, vStatus := s.FindView(req.H, req.R, "(*Kernel).addFuturePrecommit"); vStatus != ViewFuture {
-		panic(fmt.Errorf(
-			"TODO: handle addFuturePrecommit when the view has changed from future to %s",
-			vStatus,
-		))
+		return AddVoteConflict
 	}
 
 	// It's still a future view.
